@@ -16,10 +16,15 @@ use vcore::refval::{RefVal, exact_eq};
 use vcore::report::{Report, hex};
 
 fn atom_names(k: usize, len: usize, salt: usize) -> Vec<String> {
-    // k distinct atom names of (roughly) the requested byte length
+    atom_names_filled(k, len, salt, "x")
+}
+
+/// k distinct atom names of (roughly) the requested byte length, padded with `fill`
+/// (a multi-byte fill gives names whose byte length exceeds 255 while their character count does not)
+fn atom_names_filled(k: usize, len: usize, salt: usize, fill: &str) -> Vec<String> {
     (0..k).map(|i| {
         let tag = format!("{}_{}", salt, i);
-        if len <= tag.len() { if len == 0 && i == 0 { String::new() } else { tag } } else { format!("{}{}", tag, "x".repeat(len - tag.len())) }
+        if len <= tag.len() { if len == 0 && i == 0 { String::new() } else { tag } } else { format!("{}{}", tag, fill.repeat((len - tag.len()) / fill.len())) }
     }).collect()
 }
 
@@ -27,12 +32,15 @@ fn part_a(rep: &Report) {
     let thorough = rep.thorough();
     let ks: Vec<usize> = if thorough { vec![0, 1, 2, 3, 4, 5, 16, 17, 127, 128, 253, 254, 255, 256, 300] } else { vec![0, 1, 2, 3, 4, 254, 255, 256] };
     let lens = [0usize, 1, 255, 256, 300];
-    let cases: Vec<(usize, usize, usize)> = ks.iter().flat_map(|&k| lens.iter().flat_map(move |&l| (0..4usize).map(move |shape| (k, l, shape)))).collect();
+    // shapes 0..3 place ASCII-padded atoms, 4..7 the same placements with atoms padded by 2-byte characters
+    let cases: Vec<(usize, usize, usize)> = ks.iter().flat_map(|&k| lens.iter().flat_map(move |&l| (0..8usize).map(move |shape| (k, l, shape)))).collect();
     cases.par_iter().for_each(|&(k, len, shape)| {
+        let fill = if shape >= 4 { "é" } else { "x" };
+        let shape = shape % 4;
         rep.add("evaluations", 1);
         let mut names = atom_names(k, 3, k * 7 + len);
         // make one (the last) atom have the requested length; others short: LongAtoms needed iff len > 255
-        if k > 0 { let last = k - 1; names[last] = atom_names(1, len, 1000 + k + len).pop().unwrap(); if names[..last].contains(&names[last]) { names[last].push('_'); } }
+        if k > 0 { let last = k - 1; names[last] = atom_names_filled(1, len, 1000 + k + len, fill).pop().unwrap(); if names[..last].contains(&names[last]) { names[last].push('_'); } }
         let atoms: Vec<OwnedTerm> = names.iter().map(|n| atom(n)).collect();
         // shapes: where the atoms live
         let (control, payload): (OwnedTerm, Option<OwnedTerm>) = match shape {
@@ -239,6 +247,6 @@ pub fn run(rep: &Report) -> serde_json::Value {
         "evaluations": rep.get("evaluations"),
         "distinct_outcomes": outcomes,
         "exhaustive": true,
-        "rule": "(a) control/payload pairs with k distinct atoms for k in {0..4,254,255,256,..}, one atom of length 0/1/255/256/300, atoms as plain atoms, identifier node names, map keys and export modules, encoded by the library and read by an independent header reader and by the library; (b) BFS over all histories of <=3(4) messages of a conforming sender model over 3 atoms and 4 cache slots in segments 0,1,7 (new entry, reference to an existing slot, overwrite; 1-2 references per message, header position != slot), state = sender cache contents, every history replayed through one real AtomCache",
+        "rule": "(a) control/payload pairs with k distinct atoms for k in {0..4,254,255,256,..}, one atom of byte length 0/1/255/256/300 padded with ASCII or with 2-byte characters (more than 255 bytes in at most 255 characters), atoms as plain atoms, identifier node names, map keys and export modules, encoded by the library and read by an independent header reader and by the library; (b) BFS over all histories of <=3(4) messages of a conforming sender model over 3 atoms and 4 cache slots in segments 0,1,7 (new entry, reference to an existing slot, overwrite; 1-2 references per message, header position != slot), state = sender cache contents, every history replayed through one real AtomCache",
     })
 }
